@@ -824,6 +824,66 @@ func c12(c *Ctx) {
 		})
 	}
 
+	c.Rule("C12.R7", "an entry that is used is not idle: every Peek that finds an entry records the current time as its last access, unconditionally (a throttled or skipped update lets an entry in use be evicted as idle, and the good instance is forgotten)", 3, func(r *Rule) {
+		ua := w.Func(P, "(*instanceHolder).updateAccess")
+		if pk == nil {
+			r.Unresolved("(*CachedCloudProvider).Peek")
+			return
+		}
+		c.SawFunc(FuncName(pk))
+		isAccessStore := func(in ssa.Instruction) bool {
+			cl, ok := in.(ssa.CallInstruction)
+			if !ok || !isCall(cl, "sync/atomic.StoreInt64") {
+				if st, isSt := in.(*ssa.Store); isSt {
+					_, f, _, okF := fieldRef(st.Addr)
+					return okF && f == "lastAccessNano"
+				}
+				return false
+			}
+			_, f, _, okF := fieldRef(cl.Common().Args[0])
+			return okF && f == "lastAccessNano"
+		}
+		fromClock := func(in ssa.Instruction) bool {
+			var v ssa.Value
+			switch x := in.(type) {
+			case ssa.CallInstruction:
+				v = x.Common().Args[1]
+			case *ssa.Store:
+				v = x.Val
+			}
+			return v != nil && strings.Contains(exprString(ptrOrigin(v), 0), "time.Now")
+		}
+		host := ua
+		if host == nil {
+			host = pk // written in place
+		}
+		c.SawFunc(FuncName(host))
+		n := 0
+		eachInstr(host, func(in ssa.Instruction) {
+			if isAccessStore(in) {
+				n++
+				r.Check("updateAccess:stores-the-clock", fromClock(in), in.Pos(), "the last access time recorded is time.Now()")
+			}
+		})
+		if ua != nil {
+			m := countOnPaths(ua, isAccessStore)
+			r.Check("updateAccess:unconditional", n >= 1 && m == 2, ua.Pos(), "updateAccess records the time exactly once on every path: "+maskString(m))
+			// Peek calls it on every hit
+			okHit := false
+			for _, cl := range callsIn(pk) {
+				if staticCallee(cl) == ua {
+					okHit = true
+					for _, f := range factsAt(cl.Block()) {
+						_ = f
+					}
+				}
+			}
+			r.Check("Peek:records-access", okHit, pk.Pos(), "Peek calls updateAccess for the entry it found")
+		} else {
+			r.Check("updateAccess:unconditional", n >= 1, pk.Pos(), "Peek records the access time")
+		}
+	})
+
 	c.Rule("C12.R5", "refresh: idle entries are scheduled for eviction (idle tested before TTL), other expired entries are re-queried, evictions are applied", 3, func(r *Rule) {
 		pendingPopRule(r, w, P, "CachedCloudProvider", "toLookupIPs")
 		if dr == nil || run == nil {
